@@ -91,7 +91,9 @@ def isclose(ev, a, k):
     for key in itertools.product(*[range(d) for d in m.shape]):
         d = sp.simplify(m.get(key) - ref)
         if d.free_symbols:
-            raise AnalysisError("numpy.isclose on a non-constant entry")
+            e_ = AnalysisError(f"numpy.isclose on a non-constant entry [{m.get(key)} vs {ref}]")
+            e_.tolerance_test_on = sorted(str(s_) for s_ in d.free_symbols)
+            raise e_
         out.cells[key] = bool(abs(complex(d)) < 1e-8)
     return out
 
